@@ -29,6 +29,8 @@
      DelayBeforeStart    c1ead5d  SUBMIT_BATCH delays the rest of the batch before starting its first task
      CancelInPlace       c553de0  _handle_cancel removes delayed tasks from the list itself (FALSE: rebinds a filtered copy)
      ForgetDiscarded     65b9d36  a cancelled task discarded from the ready queue is also forgotten in _tasks
+     TolerantCompletion  3fdf1bb  the loop over a finished task's mailboxes skips one that a cancel dropped meanwhile (FALSE: KeyError
+                                  out of _process_task_completion, past every handler, ends the worker loop)
      DropLateBoxes       (repair proposed by this work, /tmp/fixes/C12-cancel-while-executing.diff; FALSE = the code without it)
                                   a task that was cancelled while it was executing drops the mailboxes it owns as soon as its
                                   step is over (Worker._drop_mailboxes_if_cancelled); _handle_cancel forgets a task BEFORE it
@@ -42,7 +44,7 @@ CONSTANTS Prog,               \* function name -> sequence of instructions (same
           RootFn,             \* the compilation's root task runs Prog[RootFn]
           Place,              \* function name -> "L" (runs on this worker) | "R" (runs elsewhere; must be a leaf) | "LR"
           EnvCancelRoot,      \* BOOLEAN: the client may cancel the compilation at any moment
-          MailboxLocked, RegisterIfNotReady, DelayBeforeStart, CancelInPlace, ForgetDiscarded, DropLateBoxes,
+          MailboxLocked, RegisterIfNotReady, DelayBeforeStart, CancelInPlace, ForgetDiscarded, TolerantCompletion, DropLateBoxes,
           Record
 
 Wid == 0
@@ -431,9 +433,13 @@ M_complLoop ==
           /\ tobj' = IF rest = <<>> THEN Reap(tobj, tasks, m.task) ELSE tobj
           /\ m' = after /\ UNCHANGED <<echo, cseen>>
      ELSE IF id \notin mboxes
-     THEN \* self.cancel() -> KeyError.  _process_task_completion runs inside `except StopIteration`, so the sibling
-          \* `except Exception` does not apply: the error reaches Worker._loop
-          m' = [m EXCEPT !.pc = "die", !.exc = "KeyError"] /\ UNCHANGED <<tobj, mboxes, box, echo, cseen, h>>
+     THEN \* `box = self._mailboxes.get(mailbox_id); if box is None: continue` (dropped by a cancel meanwhile).
+          \* Historical: self.cancel() -> KeyError; _process_task_completion runs inside `except StopIteration`, so the sibling
+          \* `except Exception` does not apply and the error reaches Worker._loop
+          IF TolerantCompletion
+          THEN /\ tobj' = IF rest = <<>> THEN Reap(tobj, tasks, m.task) ELSE tobj
+               /\ m' = after /\ UNCHANGED <<mboxes, box, echo, cseen, h>>
+          ELSE m' = [m EXCEPT !.pc = "die", !.exc = "KeyError"] /\ UNCHANGED <<tobj, mboxes, box, echo, cseen, h>>
      ELSE LET n == box[id].expected IN
           /\ mboxes' = mboxes \ {id} /\ box' = Del(box, id)
           /\ echo' = echo \cup CancelAddrs(id, n) /\ cseen' = cseen \cup CancelAddrs(id, n)
